@@ -40,6 +40,18 @@ Theorem C06_exec_oracle_independent :
 Proof. exact nd_run_independent. Qed.
 Print Assumptions C06_exec_oracle_independent.
 
+(* cache warmth: with a coherent state cache (C07) a step that reads through the cache gives the same result on a
+   node that holds the earlier blocks' values in its cache and on a node that starts from the committed trie.
+   Tie: the warm/cold executions of the engine (one StateCache kept across blocks vs a fresh one per block),
+   including a contract call that fails after writing followed by a later read of the same key *)
+Theorem C06_cache_warmth_independent :
+  forall (S : Type) (step : S -> (Z -> option Z) -> S) warm1 warm2 cache1 cache2 trie,
+    nd_cache_coherent warm1 cache1 trie -> nd_cache_coherent warm2 cache2 trie ->
+    (forall s r r', (forall k, r k = r' k) -> step s r = step s r') ->
+    forall s, step s (nd_read warm1 cache1 trie) = step s (nd_read warm2 cache2 trie).
+Proof. exact nd_step_warmth_independent. Qed.
+Print Assumptions C06_cache_warmth_independent.
+
 (* every site found in the sources is in a class with one of the lemmas above, or is listed with a
    justification or as a known finding. A new unclassified range over a map, clock read, go statement ...
    in the scope makes this fail. *)
@@ -89,6 +101,12 @@ Example C06_example_first_error :
   Permutation [1; 0; 2] [2; 0; 1] /\ nd_first_error Z nd_err_demo [1; 0; 2] <> nd_first_error Z nd_err_demo [2; 0; 1] /\
   nd_first_error_sorted nd_err_demo [1; 0; 2] = nd_first_error_sorted nd_err_demo [2; 0; 1].
 Proof. exact nd_first_error_order_dependent. Qed.
+
+Example C06_example_incoherent_cache :
+  let trie := fun k : Z => None in
+  let cache := fun k : Z => if Z.eqb k 7 then Some 1 else None in
+  nd_read (fun _ => true) cache trie 7 <> nd_read (fun _ => false) cache trie 7.
+Proof. exact nd_incoherent_cache_example. Qed.
 
 Example C06_example_emission :
   nd_emit_all Z [] [1; 2] <> nd_emit_all Z [] [2; 1] /\ nd_emit_sorted [] [1; 2] = nd_emit_sorted [] [2; 1].
